@@ -303,6 +303,19 @@ async fn run(p: &Program) -> Value {
                     None => json!({"res": "none"}),
                 }
             }
+            "consume_sync" => {
+                let r = match hs.remove(&o.h) {
+                    Some(Hd::Own(a)) => a.consume_sync(),
+                    _ => panic!("consume_sync on wrong handle"),
+                };
+                match r {
+                    Ok(f) => match f.await {
+                        Some(a) => json!({"res": "some", "pos": a.st.len(), "inst": a.inst}),
+                        None => json!({"res": "none"}),
+                    },
+                    Err(_) => json!({"res": "err"}),
+                }
+            }
             "consume" => {
                 let r = match hs.remove(&o.h) {
                     Some(Hd::Own(a)) => a.consume().await,
